@@ -1,0 +1,70 @@
+//go:build verif
+
+// Hooks for the verification harness in /verif. Compiled only with the build
+// tag "verif"; nothing here is referenced by the rest of the package.
+
+package smtp
+
+import (
+	"bufio"
+	"crypto/tls"
+	"fmt"
+	"io"
+	"net"
+)
+
+// VerifServeConn serves a single connection synchronously in the calling
+// goroutine, exactly as Serve does for an accepted connection. onConn, if not
+// nil, is told about the Conn before it is served.
+func (s *Server) VerifServeConn(nc net.Conn, onConn func(*Conn)) error {
+	c := newConn(nc, s)
+	if onConn != nil {
+		onConn(c)
+	}
+	return s.handleConn(c)
+}
+
+// VerifState dumps the private fields of the connection that determine how
+// future commands are treated. It must only be called from the goroutine
+// serving the connection (or while that goroutine is blocked).
+func (c *Conn) VerifState() string {
+	c.locker.Lock()
+	sess := c.session != nil
+	pipe := c.bdatPipe != nil
+	c.locker.Unlock()
+	_, isTLS := c.TLSConnectionState()
+	return fmt.Sprintf("helo=%t sess=%t err=%d from=%t rcpts=%d pipe=%t bdatStatus=%t bytes=%d binmime=%t auth=%t tls=%t linelimit=%d",
+		c.helo != "", sess, c.errCount, c.fromReceived, len(c.recipients), pipe, c.bdatStatus != nil,
+		c.bytesReceived, c.binarymime, c.didAuth, isTLS, c.lineLimitReader.LineLimit)
+}
+
+// VerifNewDataReader returns the DATA reader used by the server, reading from r
+// with an optional size limit (0 means none).
+func VerifNewDataReader(r *bufio.Reader, limit int64) io.Reader {
+	dr := &dataReader{r: r}
+	if limit > 0 {
+		dr.limited = true
+		dr.n = limit
+	}
+	return dr
+}
+
+// VerifNewLineLimitReader returns the line-length limiting reader used below
+// the server's (and the client's) buffered reader.
+func VerifNewLineLimitReader(r io.Reader, limit int) io.Reader {
+	return &lineLimitReader{R: r, LineLimit: limit}
+}
+
+func VerifEncodeXtext(s string) string          { return encodeXtext(s) }
+func VerifDecodeXtext(s string) (string, error) { return decodeXtext(s) }
+func VerifEncodeUTF8AddrXtext(s string) string  { return encodeUTF8AddrXtext(s) }
+func VerifEncodeUTF8AddrUnitext(s string) string {
+	return encodeUTF8AddrUnitext(s)
+}
+func VerifDecodeUTF8AddrXtext(s string) (string, error) { return decodeUTF8AddrXtext(s) }
+
+func VerifParseCmd(line string) (cmd string, arg string, err error) { return parseCmd(line) }
+
+// VerifSetStartTLSHook installs a function that may adjust the tls.Config the
+// client uses for STARTTLS (the package's existing test hook).
+func VerifSetStartTLSHook(f func(*tls.Config)) { testHookStartTLS = f }
